@@ -10,6 +10,8 @@ import SqlLineage.IO.Sql
 import SqlLineage.IO.PathSec
 import SqlLineage.IO.Export
 import SqlLineage.IO.Names
+import SqlLineage.IO.Split
+import SqlLineage.IO.Provider
 
 open Lean
 
@@ -34,7 +36,13 @@ def handlers : List (String × (Json → Except String Json)) := [
   ("namesOf", SqlLineage.IO.Names.handleOf),
   ("namesSrc", SqlLineage.IO.Names.handleSrc),
   ("namesSites", SqlLineage.IO.Names.handleSites),
-  ("namesEq", SqlLineage.IO.Names.handleEq)
+  ("namesEq", SqlLineage.IO.Names.handleEq),
+  ("splitlex", SqlLineage.IO.Split.handleLex),
+  ("split", SqlLineage.IO.Split.handleSplit),
+  ("splitscript", SqlLineage.IO.Split.handleScript),
+  ("provhist", SqlLineage.IO.Provider.handleHist),
+  ("provthreads", SqlLineage.IO.Provider.handleThreads),
+  ("provsched", SqlLineage.IO.Provider.handleSched)
 ]
 
 def handleLine (line : String) : String :=
